@@ -1483,6 +1483,9 @@ class Evaluator:
             return self._call_dotted(ra[1] + "." + name, args, kwargs, st, node)
         ci = self._obj_class(recv)
         res = atom(("mcall", recv, name, tuple(args), _kw(kwargs)))
+        if name in _ARRAY_REDUCTIONS and ci is None and (ra is None or ra[0] not in ("global", "dict", "list", "tuple", "set")):
+            # x.sum(axis=1) is numpy.sum(x, axis=1) for arrays, frames and series alike: one normal form for both spellings
+            res = atom(("call", "numpy." + name, (recv,) + tuple(args), _kw(kwargs)))
         if name == "get" and ci is None and len(args) == 2 and not kwargs:
             # d.get(k, default)  ==  d[k] if k in d else default
             res = T.mk_ite(atom(("in", args[0], recv)), self.mk_sub(recv, args[0]), args[1])
@@ -1493,6 +1496,13 @@ class Evaluator:
             if tgt is not None:
                 mutates = _writes_self(self.prog, ci, tgt, set())
         callee = ("foreign", ci.name, name) if ci is not None else ("mcall", name)
+        if (name == "pop" and ci is None and len(args) == 1 and args[0] == const(0) and not kwargs and isinstance(f.value, ast.Attribute)
+                and self.is_self(f.value.value, st) and (recv.single_atom() or ("",))[0] != "dict"):
+            # x = self.seq.pop(0)  ==  x = self.seq[0]; self.seq = self.seq[1:]
+            res = self.mk_sub(recv, const(0))
+            self.emit("call", node, callee=callee, fi=tgt, recv=recv, args=tuple(args), kwargs=_kw(kwargs), result=res)
+            self.store_attr(f.value.attr, atom(("sub", recv, atom(("slice", const(1), T.NONE, T.NONE)))), st, node)
+            return res
         self.emit("call", node, callee=callee, fi=tgt, recv=recv, args=tuple(args), kwargs=_kw(kwargs), result=res)
         if mutates:
             root, path = self._root(f.value, st) if isinstance(f.value, (ast.Attribute, ast.Subscript, ast.Name)) else (("value", recv), [])
@@ -1524,6 +1534,7 @@ class Evaluator:
         return res
 
 
+_ARRAY_REDUCTIONS = frozenset(("sum", "mean", "std", "var", "cumsum", "prod", "argmax", "argmin"))
 _LOCALS = {}
 
 
